@@ -38,9 +38,9 @@ navis.set_loggers('ERROR')
 
 EPS = Fraction(1, 2 ** 30)
 EPS_TOK = f'1/{2 ** 30}'
-SIG_INT = 'mirror / integer-dtype coordinates truncated by astype(points.dtype) / all-integer xyz, non-integer mirror_axis_size'
-SIG_NAN = 'xform / _guess_change yields NaN (round(log10(nan)) raises ValueError) / all collated coordinate rows coincide (>= 2 rows)'
-SIG_SYM = 'symmetrize_brain / k-less Dotprops / tangent vectors dropped (_vect=None, .vect raises)'
+# The three defects found by this check (integer-dtype truncation in `mirror`, tangents dropped by
+# `symmetrize_brain` for k-less Dotprops, `xform` raising on coincident rows) are fixed in navis
+# (known_findings/C16.json, status "fixed"): their streams stay, without a signature, so a regression is a VIOLATION.
 
 
 # ---------------------------------------------------------------------------------------------
@@ -603,11 +603,9 @@ def run_xform(ctx, case):
             ctx.count('raises', type(e).__name__)
             return
         ctx.count('impl_error', type(e).__name__)
-        sig = None
-        if isinstance(e, ValueError) and 'NaN' in str(e) and any(all_rows_coincide(d) for d in d_ins):
-            sig = SIG_NAN
+        coinc = any(all_rows_coincide(d) for d in d_ins)
         ctx.oracle(False, f'navis.xform raises {type(e).__name__}: {str(e)[:160]} on a valid {spec["type"]}'
-                          + (' whose coordinate rows (nodes + connectors) all coincide' if sig else ''), case, signature=sig)
+                          + (' whose coordinate rows (nodes + connectors) all coincide' if coinc else ''), case)
         return
     after = snap(x)
     ctx.oracle(before == after, f'navis.xform modified its input ({spec["type"]})', case)
@@ -630,7 +628,10 @@ def run_xform(ctx, case):
         m = ms.pop(0) if (nr > 1 and ms) else 0
         ctx.count('magnitude', m)
         tag = f'{type(n_in).__name__}[{i}]'
-        if k10 is not None and nr > 1:
+        if all_rows_coincide(d_in):
+            ctx.count('coincident_rows', m)
+            ctx.oracle(m == 0, f'{tag}: all coordinate rows coincide (no distance to compare) but the detected magnitude is {m}', case)
+        elif k10 is not None and nr > 1:
             ctx.oracle(m == k10, f'{tag}: transform scales by exactly 10**{k10} but the detected magnitude is {m}', case)
         for a in coord_arrays(n_out):
             for b in coord_arrays(n_in):
@@ -963,10 +964,26 @@ def run_symm(ctx, case):
 
     def rest(tok):
         return [r.split(',')[3] for r in tok.split(';') if r]
-    ctx.corr(pts_tok(coords(d_out['pts'])), model(coords(d_in['pts'])), 'symmetrize_brain: node/vertex/point coordinates', case)
+    helper_path = d_in['kind'] == 'd' and (d_in['k'] == '-' or int(d_in['k']) <= 0)
+    mline = ctx.ask(f"c16.symmn {rt(fr(t['lo'][0]))},{rt(fr(t['hi'][0]))} | {f_payload(g)} | {f_payload(g0)} | {n_line(d_in)}")
+    if mline in ('RAISES', 'BAD-OP'):
+        ctx.corr('returned a neuron', mline, 'symmetrize_brain: model says it raises', case)
+        return
+    mo = parse_line(mline)
+    for k in ('kind', 'pts', 'conns', 'faces', 'k', 'info', 'rad', 'units', 'soma'):
+        ctx.corr(d_out.get(k), mo.get(k), f'symmetrize_brain field `{k}` (navis vs Lean symmetrizeNeuron)', case)
+    ctx.corr(d_out['alpha'] == '-', mo.get('alpha') == '-', 'symmetrize_brain `_alpha` present / dropped', case)
+    if helper_path:
+        ok = ctx.ask(f"c16.tangents {EPS_TOK} | {mo.get('vect', '')} | {d_out['vect'] if d_out['vect'] != '-' else ''}")
+        ctx.corr(ok, 'ok=1', 'symmetrize_brain: tangents of a k-less Dotprops are the normalised helper directions of the model', case)
+    else:
+        ctx.corr(d_out['vect'], mo.get('vect'), 'symmetrize_brain field `vect`', case)
+    # the property, straight from the statement: coordinates moved by the array-level map, nothing else changed
+    ctx.oracle(pts_tok(coords(d_out['pts'])) == model(coords(d_in['pts'])),
+               'symmetrize_brain: node/vertex/point coordinates are not the symmetrized raw coordinates', case)
     if d_in['conns'] not in ('-', ''):
-        ctx.corr(pts_tok(coords(d_out['conns'])) if d_out['conns'] != '-' else '-', model(coords(d_in['conns'])),
-                 'symmetrize_brain: connector coordinates', case)
+        ctx.oracle(d_out['conns'] != '-' and pts_tok(coords(d_out['conns'])) == model(coords(d_in['conns'])),
+                   'symmetrize_brain: connector coordinates are not the symmetrized raw connector coordinates', case)
     same = [k for k in ('kind', 'faces', 'k', 'info', 'rad', 'units', 'soma') if d_in[k] != d_out[k]]
     if rest(d_in['pts']) != rest(d_out['pts']):
         same.append('other node columns')
@@ -974,14 +991,13 @@ def run_symm(ctx, case):
         same.append('other connector columns')
     ctx.oracle(not same, f'symmetrize_brain changed more than coordinates: {same}', case)
     if isinstance(out, navis.Dotprops):
-        helper_path = spec.get('k') is None
         try:
             v = np.asarray(out.vect, dtype=float)
             ok = bool(v.shape == np.asarray(out.points).shape and np.all(np.abs(np.linalg.norm(v, axis=1) - 1) < 1e-9))
             ctx.oracle(ok, 'Dotprops tangents are not unit vectors after symmetrize_brain', case)
         except Exception as e:
-            ctx.oracle(False, f'symmetrize_brain drops the tangent vectors of a Dotprops without k: `.vect` raises '
-                              f'{type(e).__name__}: {str(e)[:80]}', case, signature=SIG_SYM if helper_path else None)
+            ctx.oracle(False, f'symmetrize_brain drops the tangent vectors of a Dotprops{" without k" if helper_path else ""}: '
+                              f'`.vect` raises {type(e).__name__}: {str(e)[:80]}', case)
 
 
 # ---------------------------------------------------------------------------------------------
@@ -1000,14 +1016,14 @@ def run_intmirror(ctx, case):
         return
     ctx.oracle(np.array_equal(pts, before), 'mirror modified its input array', case)
     want = [apply_steps_exact([['M', ax, size]], r) for r in arr_rows(pts)]
-    non_int = fr(size).denominator != 1
-    sig = SIG_INT if non_int else None
-    ctx.oracle(arr_rows(m1) == want,
+    ctx.oracle(isinstance(m1, np.ndarray) and arr_rows(m1) == want,
                f'mirror of an integer array about size {size}: got {np.asarray(m1).tolist()[:3]}, the mirror image is '
-               f'{[tuple(map(float, w)) for w in want[:3]]} (result cast back to {pts.dtype}, truncating toward zero)', case, signature=sig)
-    ctx.oracle(np.array_equal(np.asarray(m2), pts),
+               f'{[tuple(map(float, w)) for w in want[:3]]} (result dtype {np.asarray(m1).dtype})', case)
+    ctx.oracle(arr_rows(m2) == arr_rows(pts),
                f'mirror twice (no warp) of integer array {pts.tolist()[:3]} about size {size} gives {np.asarray(m2).tolist()[:3]}',
-               case, signature=sig)
+               case)
+    model = ctx.ask(f"c16.table M:{ax},{rt(fr(size))} | {rows_tok([r + ('_',) for r in arr_rows(pts)])}")
+    ctx.corr(rows_tok([r + ('_',) for r in arr_rows(m1)]), model, 'mirror(integer array) rows', case)
 
 
 # ---------------------------------------------------------------------------------------------
@@ -1290,8 +1306,9 @@ def gen_cases(ctx):
             obj = {'type': 'list', 'items': [gen_neuron(r) for _ in range(r.choice([1, 2, 3]))]}
         else:
             obj = gen_tablelike(r)
-            if obj.get('int_xyz'):
-                obj['int_xyz'] = False
+        if obj['type'] == 'tree' and obj.get('conns') and r.random() < 0.3:
+            obj['int_conn_xyz'] = True
+            obj['conns'] = [c[:3] + [int(c[3]), int(c[4]), int(c[5])] + c[6:] for c in obj['conns']]
         warp = r.choice(['false', 'false', 'false', 'auto', 'auto-reg', 'true-reg', 'obj'])
         t = gen_template(r, reg=warp in ('auto-reg', 'true-reg'))
         c = {'obj': obj, 'template': t, 'axis': r.choice('xyz'), 'warp': warp, 'stream': 'mirror',
@@ -1310,8 +1327,8 @@ def gen_cases(ctx):
             obj = gen_tree(r)
         elif u < 0.4:
             obj = gen_mesh(r)
-        elif u < 0.6:
-            obj = gen_dots(r, force_k=(r.random() < 0.7))
+        elif u < 0.7:
+            obj = gen_dots(r, force_k=(r.random() < 0.5))
         else:
             obj = gen_tablelike(r)
             if obj['type'] in ('volume', 'trimesh') or obj.get('int_xyz') or obj.get('as_list'):
@@ -1354,7 +1371,7 @@ def run(ctx):
         'TransformSequence / list). table cases: DataFrame (int or float xyz, column orders, custom index), arrays, lists, '
         'Volume, Trimesh. mirror cases: object + template bounding box (3x2, 2x3, flat, tuple) + axis + warp mode '
         '(False / auto without registration / auto or True with a registered affine mirror registration / explicit '
-        'transform), template by label or object, low-level `mirror`. symmetrize / integer-dtype / voxel streams. '
+        'transform), template by label or object, low-level `mirror`. symmetrize / integer-dtype (int arrays, all-int DataFrames and connector tables mirrored about non-integer sizes) / coincident-rows / voxel streams. '
         'non-trivial = at least two coordinate rows (xform) or a non-empty object; distinct = distinct JSON digest')
     ctx.extra['assumptions'] = [
         'coordinates are dyadic (two fractional bits, |v| ≤ 40), matrices dyadic with small numerators: every transformed '
